@@ -39,10 +39,18 @@ impl AtomicCounter {
     /// Flushes the current counter value, returning the delta of the counter value, and the number of updates, since
     /// the last flush.
     pub fn flush(&self) -> (u64, u64) {
+        #[cfg(metrics_verif)]
+        metrics::verif::point("dsd.c.fl.cur.pre", &[self as *const _ as i64]);
         let current = self.current.load(Acquire);
+        #[cfg(metrics_verif)]
+        metrics::verif::point("dsd.c.fl.last.pre", &[self as *const _ as i64]);
         let last = self.last.swap(current, AcqRel);
         let delta = current.wrapping_sub(last);
+        #[cfg(metrics_verif)]
+        metrics::verif::point("dsd.c.fl.upd.pre", &[self as *const _ as i64]);
         let updates = self.updates.swap(0, AcqRel);
+        #[cfg(metrics_verif)]
+        metrics::verif::point("dsd.c.fl.post", &[self as *const _ as i64, delta as i64, updates as i64]);
 
         (delta, updates)
     }
@@ -50,8 +58,14 @@ impl AtomicCounter {
 
 impl CounterFn for AtomicCounter {
     fn increment(&self, value: u64) {
+        #[cfg(metrics_verif)]
+        metrics::verif::point("dsd.c.inc.isabs.pre", &[self as *const _ as i64]);
         self.is_absolute.store(false, Release);
+        #[cfg(metrics_verif)]
+        metrics::verif::point("dsd.c.inc.cur.pre", &[self as *const _ as i64]);
         self.current.fetch_add(value, Relaxed);
+        #[cfg(metrics_verif)]
+        metrics::verif::point("dsd.c.inc.upd.pre", &[self as *const _ as i64]);
         self.updates.fetch_add(1, Relaxed);
     }
 
@@ -60,11 +74,19 @@ impl CounterFn for AtomicCounter {
         // consistent starting point when flushing. This ensures that we only start flushing deltas once we've gotten
         // two consecutive absolute values, since otherwise we might be calculating a delta between a `last` of 0 and a
         // very large `current` value.
+        #[cfg(metrics_verif)]
+        metrics::verif::point("dsd.c.abs.swap.pre", &[self as *const _ as i64]);
         if !self.is_absolute.swap(true, Release) {
+            #[cfg(metrics_verif)]
+            metrics::verif::point("dsd.c.abs.last.pre", &[self as *const _ as i64]);
             self.last.store(value, Release);
         }
 
+        #[cfg(metrics_verif)]
+        metrics::verif::point("dsd.c.abs.cur.pre", &[self as *const _ as i64]);
         self.current.store(value, Release);
+        #[cfg(metrics_verif)]
+        metrics::verif::point("dsd.c.abs.upd.pre", &[self as *const _ as i64]);
         self.updates.fetch_add(1, Relaxed);
     }
 }
@@ -82,7 +104,11 @@ impl AtomicGauge {
 
     /// Flushes the current gauge value and the number of updates since the last flush.
     pub fn flush(&self) -> (f64, u64) {
+        #[cfg(metrics_verif)]
+        metrics::verif::point("dsd.g.fl.cur.pre", &[self as *const _ as i64]);
         let current = f64::from_bits(self.inner.load(Acquire));
+        #[cfg(metrics_verif)]
+        metrics::verif::point("dsd.g.fl.upd.pre", &[self as *const _ as i64]);
         let updates = self.updates.swap(0, AcqRel);
 
         (current, updates)
@@ -91,27 +117,39 @@ impl AtomicGauge {
 
 impl GaugeFn for AtomicGauge {
     fn increment(&self, value: f64) {
+        #[cfg(metrics_verif)]
+        metrics::verif::point("dsd.g.add.pre", &[self as *const _ as i64]);
         self.inner
             .fetch_update(AcqRel, Relaxed, |current| {
                 let new = f64::from_bits(current) + value;
                 Some(f64::to_bits(new))
             })
             .expect("should never fail to update gauge");
+        #[cfg(metrics_verif)]
+        metrics::verif::point("dsd.g.upd.pre", &[self as *const _ as i64]);
         self.updates.fetch_add(1, Relaxed);
     }
 
     fn decrement(&self, value: f64) {
+        #[cfg(metrics_verif)]
+        metrics::verif::point("dsd.g.add.pre", &[self as *const _ as i64]);
         self.inner
             .fetch_update(AcqRel, Relaxed, |current| {
                 let new = f64::from_bits(current) - value;
                 Some(f64::to_bits(new))
             })
             .expect("should never fail to update gauge");
+        #[cfg(metrics_verif)]
+        metrics::verif::point("dsd.g.upd.pre", &[self as *const _ as i64]);
         self.updates.fetch_add(1, Relaxed);
     }
 
     fn set(&self, value: f64) {
+        #[cfg(metrics_verif)]
+        metrics::verif::point("dsd.g.set.pre", &[self as *const _ as i64]);
         self.inner.store(value.to_bits(), Release);
+        #[cfg(metrics_verif)]
+        metrics::verif::point("dsd.g.upd.pre", &[self as *const _ as i64]);
         self.updates.fetch_add(1, Relaxed);
     }
 }
